@@ -48,14 +48,24 @@ func lkSanitize(c *lkCase) {
 	}
 	c.World = w
 	// the index format cannot carry an empty version
+	// … and one repository directory cannot hold two different files <name>-<version>.apk
 	for ai := range c.Archs {
 		for ii := range c.Archs[ai].Indexes {
 			px := c.Archs[ai].Indexes[ii].Pkgs
+			seen := map[string]bool{}
+			var keep []rPkg
 			for pi := range px {
 				if px[pi].Version == "" {
 					px[pi].Version = "1.0-r0"
 				}
+				k := px[pi].Name + "-" + px[pi].Version
+				if seen[k] {
+					continue
+				}
+				seen[k] = true
+				keep = append(keep, px[pi])
 			}
+			c.Archs[ai].Indexes[ii].Pkgs = keep
 		}
 	}
 }
